@@ -457,6 +457,17 @@ class FitBase(FileIOMixin, object):
     def _second_fit_needed(self):
         return bool(self._param_model.get_matching_errors({"relative": True})) and self._dynamic_error_algorithm == "nonlinear"
 
+    def _errors_are_uncorrelated(self):
+        """Whether no enabled uncertainty source correlates data points: only then can the pointwise cost function stand in for the covariance
+        cost function at every parameter point (the total covariance matrix can be diagonal at one point only, e.g. at zero slope)."""
+        for _container in (self._data_container, self._param_model):
+            if _container is None:
+                continue
+            for _error in _container.get_matching_errors({"enabled": True}).values():
+                if not is_diagonal(_error.cor_mat):
+                    return False
+        return True
+
     def _get_node_names_to_freeze(self, first_fit):
         if first_fit or not self._param_model.get_matching_errors({"relative": True}) or self._dynamic_error_algorithm == "iterative":
             return self._MODEL_ERROR_NODE_NAMES
@@ -772,7 +783,7 @@ class FitBase(FileIOMixin, object):
 
     @property
     def goodness_of_fit(self):
-        if self._cost_function_pointwise is not None and is_diagonal(self.total_cov_mat):
+        if self._cost_function_pointwise is not None and self._errors_are_uncorrelated():
             _cost_function = self._cost_function_pointwise
         else:
             _cost_function = self._cost_function
@@ -1139,7 +1150,7 @@ class FitBase(FileIOMixin, object):
             check_numerical_range(self.model, "model values (pre-fit)")
 
         if self._cost_function_pointwise is not None:
-            if is_diagonal(self.total_cov_mat):
+            if self._errors_are_uncorrelated():
                 _cost_target = self._cost_function_pointwise.name
             else:
                 _cost_target = self._cost_function.name
